@@ -577,7 +577,7 @@ fn acquire(me: usize, lock: usize, mode: Mode) {
     rt.threads[me].state = ThState::Runnable;
     if rt.log_locks {
       let site = rt.locks[lock].site.clone();
-      rt.ev(me, format!("acq {:?} #{} {}", mode, lock, site));
+      rt.ev(me, format!("{{\"ev\":\"lk\",\"op\":\"acq\",\"m\":\"{:?}\",\"lock\":{},\"site\":\"{}\"}}", mode, lock, site));
     }
   });
 }
@@ -597,7 +597,7 @@ fn release(me: usize, lock: usize, mode: Mode) {
       }
     }
     if rt.log_locks {
-      rt.ev(me, format!("rel {:?} #{}", mode, lock));
+      rt.ev(me, format!("{{\"ev\":\"lk\",\"op\":\"rel\",\"m\":\"{:?}\",\"lock\":{}}}", mode, lock));
     }
   }
 }
@@ -696,7 +696,7 @@ fn try_acquire(me: usize, lock: usize, mode: Mode) -> bool {
       }
       if rt.log_locks {
         let site = rt.locks[lock].site.clone();
-        rt.ev(me, format!("acq {:?} #{} {}", mode, lock, site));
+        rt.ev(me, format!("{{\"ev\":\"lk\",\"op\":\"acq\",\"m\":\"{:?}\",\"lock\":{},\"site\":\"{}\"}}", mode, lock, site));
       }
     }
     free
@@ -930,7 +930,7 @@ impl Condvar {
         let until = dur.map(|d| rt.clock + d.as_nanos() as u64);
         rt.threads[me].state = ThState::CvWait { cv, lock, until };
         if rt.log_locks {
-          rt.ev(me, format!("cvwait cv#{} rel #{}", cv, lock));
+          rt.ev(me, format!("{{\"ev\":\"lk\",\"op\":\"cvwait\",\"cv\":{},\"lock\":{}}}", cv, lock));
         }
         reschedule(g, me);
         // either a notifier turned us into WantLock (and the lock is available), or the deadline passed
@@ -943,7 +943,7 @@ impl Condvar {
             rt.locks[lock].writer = Some(me);
             rt.threads[me].state = ThState::Runnable;
             if rt.log_locks {
-              rt.ev(me, format!("cvwake cv#{} acq #{}", cv, lock));
+              rt.ev(me, format!("{{\"ev\":\"lk\",\"op\":\"cvwake\",\"cv\":{},\"lock\":{}}}", cv, lock));
             }
           });
         }
@@ -1026,7 +1026,7 @@ impl Condvar {
           }
         }
         if rt.log_locks {
-          rt.ev(me, format!("notify cv#{} woke {:?}", cv, woken));
+          rt.ev(me, format!("{{\"ev\":\"lk\",\"op\":\"notify\",\"cv\":{}}}", cv));
         }
         reschedule(g, me);
       }
